@@ -1,0 +1,45 @@
+// Verification hooks. Compiled only with `--cfg parity_db_verif`; absent from normal builds.
+//
+// A test harness installs a sink with `set_sink`. The crate calls `emit(name, args)` at the
+// linearization points of the write pipeline, while still holding the lock that protects the
+// change being reported. With no sink installed `emit` is one relaxed atomic load.
+//
+// The sink runs on the calling thread, inside the critical section: it must not call back
+// into the database. It may block (used as a yield point to force schedules), copy files
+// (crash images) or record the event.
+
+use std::sync::{
+	atomic::{AtomicBool, AtomicU64, Ordering},
+	Arc, RwLock,
+};
+
+pub type Sink = Arc<dyn Fn(&'static str, &[u64]) + Send + Sync>;
+
+static ENABLED: AtomicBool = AtomicBool::new(false);
+static SINK: RwLock<Option<Sink>> = RwLock::new(None);
+static SEQ: AtomicU64 = AtomicU64::new(0);
+
+/// Install (or remove) the event sink.
+pub fn set_sink(sink: Option<Sink>) {
+	let mut s = SINK.write().unwrap();
+	ENABLED.store(sink.is_some(), Ordering::SeqCst);
+	*s = sink;
+}
+
+/// Next value of a process-wide sequence counter (for harness-side events that must be
+/// ordered consistently with hook events).
+pub fn next_seq() -> u64 {
+	SEQ.fetch_add(1, Ordering::SeqCst)
+}
+
+/// Report an event. No-op unless a sink is installed.
+#[inline]
+pub fn emit(name: &'static str, args: &[u64]) {
+	if !ENABLED.load(Ordering::Relaxed) {
+		return
+	}
+	let sink = SINK.read().unwrap().clone();
+	if let Some(sink) = sink {
+		sink(name, args);
+	}
+}
